@@ -26,6 +26,11 @@ func (tx *Tx) lockKey(key string) *metadata {
 	if ok {
 		verifPoint("hit")
 		m.Lock()
+		if m.unlinked {
+			// the record left the index while we waited for its lock: look the key up again
+			m.Unlock()
+			return tx.lockKey(key)
+		}
 		m.writeable = true
 		tx.lockedMetas = append(tx.lockedMetas, m)
 		m.count++
@@ -43,6 +48,11 @@ func (tx *Tx) rLockKey(key string) *metadata {
 	if ok {
 		verifPoint("hit")
 		m.RLock()
+		if m.unlinked {
+			// the record left the index while we waited for its lock: look the key up again
+			m.RUnlock()
+			return tx.rLockKey(key)
+		}
 		tx.lockedMetas = append(tx.lockedMetas, m)
 		m.count++
 		verifPoint("locked")
@@ -56,7 +66,17 @@ func (tx *Tx) newKey(m *metadata, key string, newFn func() ds.Value) *metadata {
 	if newFn != nil {
 		tx.store.mu.Lock()
 		if m.RWMutex == nil {
+			// the key was missing when it was looked up; if another client has created it
+			// since, work on that record instead of publishing a second one
+			if _, ok := tx.store.metadata.Get(key); ok {
+				tx.store.mu.Unlock()
+				return tx.writeKey(key, newFn)
+			}
+			// the new record is locked before anybody can find it
 			m.RWMutex = new(sync.RWMutex)
+			m.Lock()
+			m.writeable = true
+			tx.lockedMetas = append(tx.lockedMetas, m)
 		}
 		value := newFn()
 		m.key = ds.NewKey(key, 0)
@@ -72,6 +92,10 @@ func (tx *Tx) newKey(m *metadata, key string, newFn func() ds.Value) *metadata {
 func (tx *Tx) delKey(key string) {
 	verifPoint("unlink")
 	tx.store.mu.Lock()
+	if m, ok := tx.store.metadata.Get(key); ok {
+		// tells clients waiting for the lock of this record that it is no longer the key
+		m.unlinked = true
+	}
 	tx.store.metadata.Delete(key)
 	tx.store.mu.Unlock()
 }
